@@ -1,6 +1,7 @@
 package small
 
 import (
+	"verif/internal/norm"
 	"fmt"
 	"go/ast"
 	"go/constant"
@@ -552,7 +553,11 @@ func DispatchShapeIn(p *load.Program, prel, vrel string) *report.RuleResult {
 		id, ok := se.X.(*ast.Ident)
 		return ok && info.Uses[id] == cfgObj
 	}
-	ps, err := paths.Enumerate(parse.Body)
+	// canonical shape first: helpers of the package inlined, switches as if-chains, single-use locals propagated
+	nz := norm.New(pk, norm.Options{NoLoops: true})
+	body := nz.Body(parse)
+	info = nz.Info
+	ps, err := paths.Enumerate(body)
 	if err != nil {
 		res.Unknown("Parse", pos, "parser.Parse", "undecided:idiom: "+err.Error())
 		return res
